@@ -173,7 +173,7 @@ def check_candidate_search(rep, prog, rid):
             step = None
             if f.attr == 'decrypt_sk':
                 step = 'recovering the session key'
-            elif f.attr == 'decrypt' and isinstance(f.value, ast.Attribute) and f.value.attr == 'message':
+            elif f.attr == 'decrypt' and len(call.args) + len(call.keywords) == 2:
                 step = 'decrypting the container with it'
             elif f.attr == 'parse' and any(isinstance(x, ast.Call) and isinstance(x.func, ast.Attribute) and x.func.attr == 'decrypt'
                                            for a in call.args for x in ast.walk(a)):
@@ -432,6 +432,14 @@ def _sessionkey_iterations(fn, universe):
                 d = local_defs[lam.id]
                 nr = _Narrow(d.args.args[0].arg, universe)
                 return nr.truthy_returns(d.body, S)
+            if S is not None and isinstance(lam, ast.Attribute) and fn.cls is not None and fn.cls.find_method(lam.attr) is not None:
+                # filter(Class.pred / self.pred, ...): a one-argument predicate method of the same class
+                d = fn.cls.find_method(lam.attr).node
+                static = any(dotted(x) == 'staticmethod' for x in d.decorator_list)
+                ps = d.args.args if static else d.args.args[1:]
+                if len(ps) == 1:
+                    nr = _Narrow(ps[0].arg, universe)
+                    return nr.truthy_returns(d.body, S)
             return S
         if isinstance(it, (ast.GeneratorExp, ast.ListComp, ast.SetComp)) and len(it.generators) == 1 and \
                 isinstance(it.generators[0].target, ast.Name) and isinstance(it.elt, ast.Name) and it.elt.id == it.generators[0].target.id:
